@@ -341,6 +341,44 @@ def run_sharded(ctx, binary, cases, mkargs, shards=6, timeout=2400, tag="shard")
     return rows
 
 
+def replay_payload(harness, args, case, human=None):
+    """What a replay file carries: enough to run that single case again (`vcheck Cxx --replay file`)."""
+    return {"harness": harness, "args": args, "case": case, "human": human}
+
+
+def do_replay(ctx):
+    """Re-run the single case stored in a replay file on the current tree. Exit 1 + VIOLATION if it still fails."""
+    rp = json.load(open(ctx.replay))
+    pl = rp.get("replay") or {}
+    if not isinstance(pl, dict) or "harness" not in pl:
+        raise Infra("replay file %s carries no re-runnable case" % ctx.replay)
+    binary = go_build(ctx, pl["harness"])
+    inp, outp = ctx.path("replay_in.jsonl"), ctx.path("replay_out.jsonl")
+    write_jsonl(inp, [pl["case"]])
+    args = [a.replace("{in}", inp).replace("{out}", outp) for a in pl["args"]]
+    if any("{hookbin}" in a for a in args):
+        hb = go_build(ctx, "hookbin")
+        args = [a.replace("{hookbin}", hb) for a in args]
+    r = run_bin(ctx, binary, args, timeout=600)
+    if r["rc"] != 0:
+        raise Infra("replay harness failed: " + r["stderr"][-1500:])
+    res = read_jsonl(outp)
+    if not res:
+        raise Infra("replay produced no result")
+    o = res[0]
+    ctx.cov["evaluations"] = 1
+    ctx.cov["traces_validated_against_impl"] = 1
+    ctx.cov["states"] = ctx.cov["transitions"] = 1
+    ctx.sample(pl.get("human") or "replayed case")
+    sigs = o.get("lost") or o.get("sigs") or ([o["sig"]] if not o.get("ok") else [])
+    want = rp.get("signature")
+    print("REPLAY result: ok=%s signatures=%s (stored signature %s)" % (o.get("ok"), sigs, want))
+    for sg in sigs:
+        if sg.startswith(ctx.pid + "/"):
+            ctx.fail(sg, o.get("detail", ""), pl)
+    finish(ctx, rule="single stored case re-executed on the current tree")
+
+
 def read_jsonl(path):
     out = []
     with open(path) as f:
@@ -461,6 +499,8 @@ def main(check_fns):
     ctx = Ctx(a.pid, a.tier, a.seed)
     ctx.replay = a.replay
     try:
+        if a.replay and a.pid in getattr(sys.modules.get("registry"), "GENERIC_REPLAY", set()):
+            do_replay(ctx)
         check_fns[a.pid](ctx)
     except Infra as e:
         print("INFRASTRUCTURE-FAILURE property=%s: %s" % (a.pid, e))
